@@ -1,5 +1,37 @@
+import os, re
 from checks.generic import standard
 from checks.loopbody import one_pass
+
+TOTP_CLASS = {1: ("totp-spacing", "an attempt got past the spacing test less than two seconds after the user's last evaluated attempt"),
+              2: ("totp-accepted-while-locked", "a code was accepted while the lock-out stored before the call was still running"),
+              3: ("totp-failure-not-counted", "an evaluated failure is missing from the stored count of consecutive failures"),
+              4: ("totp-lockout-short", "the lock-out after this failure ends earlier than the number of consecutive failures demands"),
+              5: ("totp-cleanup-forgets", "a cleanup pass lowered the failure count or the lock-out of an entry")}
+
+def idx_line(ctx, name, i):
+    p = os.path.join(ctx.work, name)
+    if os.path.exists(p):
+        lines = open(p).read().split("\n")
+        if 0 <= i < len(lines):
+            return lines[i][:6000]
+    return None
+
+def violating(ctx, res):
+    """round-2 addendum: mismatching cases whose OBSERVATION violates the property become oracle hits with their input"""
+    for i in [int(x) for x in re.findall(r"\d+", res.get("c14_lookup_violating") or "")][:5]:
+        ctx.hits.append({"key": "C14:model-oracle:lookups-per-token", "oracle": "property predicate evaluated in Coq on the observation of a mismatching case: one limiter token buys at most one backend lookup, a refusal none",
+                         "what": "observed lookups exceed what one limiter token buys (model: login_step_tries code_tries): " + (idx_line(ctx, "CasesC14_lookup.idx", i) or "case %d" % i),
+                         "case": idx_line(ctx, "CasesC14_lookup.idx", i) or i})
+    for i in [int(x) for x in re.findall(r"\d+", res.get("c14_okta_violating") or "")][:5]:
+        ctx.hits.append({"key": "C14:model-oracle:lookups-per-token:okta", "oracle": "property predicate evaluated in Coq on the observation of a mismatching case: one limiter token buys at most one request to the Okta authn endpoint, a refusal none",
+                         "what": "observed requests to the identity provider exceed what one limiter token buys: " + (idx_line(ctx, "CasesC14_okta.idx", i) or "case %d" % i),
+                         "case": idx_line(ctx, "CasesC14_okta.idx", i) or i})
+    for code in [int(x) for x in re.findall(r"\d+", res.get("c14_totp_violating") or "")][:5]:
+        sc, step, cls = code // 1000000, (code % 1000000) // 10, code % 10
+        name, what = TOTP_CLASS.get(cls, ("totp-other", "observed transition violates the statement"))
+        ctx.hits.append({"key": "C14:model-oracle:" + name, "oracle": "property predicate evaluated in Coq on the observed transition of a mismatching step",
+                         "what": "scenario %d step %d: %s" % (sc, step, what),
+                         "case": {"scenario": sc, "step": step, "history": idx_line(ctx, "CasesC14_totp.idx", sc)}})
 
 def run(ctx):
     # one pass of the periodic cleanup (an endless loop with a sleep in the tree) as a callable unit
@@ -7,9 +39,11 @@ def run(ctx):
     ctx.obligations.append(("instrumentation: one pass of performStateCleanup callable (%s)" % detail, ok, detail))
     if not ok:
         ctx.broken.append(("correspondence", "instrumentation", "no loop body found in performStateCleanup (app.go): " + detail))
-    return standard(ctx, extra_overlay=overlay,
+    return standard(ctx, extra_overlay=overlay, post_cases=violating,
         props=[("Props.C14", ["c14_bucket", "c14_bucket_limiter", "c14_bucket_plus1", "c14_bucket_any_state",
-                              "c14_excess_429", "c14_limiter_first", "c14_entry_points", "c14_config", "c14_old_clamp_refuted",
+                              "c14_excess_429", "c14_limiter_first", "c14_entry_points",
+                              "c14_one_lookup_per_token", "c14_bucket_lookups", "c14_tries_code", "c14_retry_on_error_refuted",
+                              "c14_totp_spacing_concurrent", "c14_split_gate_refuted", "c14_config", "c14_old_clamp_refuted",
                               "c14_totp_spacing", "c14_lockout", "c14_lockout_escalates", "c14_fail_count",
                               "c14_totp_per_user", "c14_old_lockout_refuted",
                               "c14_cleanup_invisible", "c14_streak", "c14_lockout_history", "c14_cleanup_per_user",
@@ -19,11 +53,14 @@ def run(ctx):
         cases=("CasesC14.v", [("c14_cfg_mismatches", "loadVerifyConfigFile's clamps = model clamp_burst/clamp_rate"),
                               ("c14_lim_mismatches", "rate.Limiter.AllowN on explicit time stamps = exact token bucket model (knife edges of half a nanosecond of refill tolerated)"),
                               ("c14_order_mismatches", "ordering probe: what a backend that reads the limiter during its lookup sees, for every entry point = limiter state after Allow() of the model's login_step"),
+                              ("c14_lookup_mismatches", "failing password backend (always / now and then / on the first lookup): status and number of lookups of every attempt = login_step_tries code_tries on the attempt's answer stream", "CasesC14_lookup.idx"),
+                              ("c14_okta_mismatches", "Okta as password backend (real lib/authenticators/okta against a local authn endpoint answering 200 SUCCESS / MFA_REQUIRED / other / undecodable, 401, 403, 429, 5xx): status and number of requests to the endpoint per attempt = login_step_tries code_tries over okta_answer", "CasesC14_okta.idx"),
                               ("c14_handler_mismatches", "measured handler sequence: every window obeys the theorem's inequality; fresh burst and refill after a pause are let through"),
-                              ("c14_totp_mismatches", "validateUserTOTP verdict and rate-limit entry after every attempt, and every entry after every pass of the periodic cleanup, = model with the uint32 counter (simulated time)")], "CasesC14.idx"),
+                              ("c14_totp_mismatches", "validateUserTOTP verdict and rate-limit entry after every attempt, and every entry after every pass of the periodic cleanup, = model with the uint32 counter (simulated time)", "CasesC14_totp.idx")], "CasesC14.idx"),
         trusted=["golang.org/x/time/rate computes in float64; the model is exact and tolerates either verdict within half a nanosecond of refill around the threshold",
                  "time is simulated for validateUserTOTP by shifting the time fields of state.totpLocalRateLimit (the code reads time.Now() itself); comparisons are kept 120 ms off their boundaries",
-                 "recording PasswordAuthenticator installed in RuntimeState.passwordChecker stands for the password backend"],
+                 "recording PasswordAuthenticator installed in RuntimeState.passwordChecker stands for the password backend (scripted answer streams: verdict / error); for Okta the real lib/authenticators/okta PasswordAuthenticator talks to a local httptest authn endpoint",
+                 "concurrent one-time-code probe: an evaluation is recognised by the verdict (accepted, or the internal error of a second enabled device whose stored secret cannot be decrypted); a throttled attempt answers a plain refusal"],
         assumptions=["arrival times at the limiter are non-decreasing (time.Now() is read just before the limiter's lock is taken; reordering of concurrent requests by microseconds is not modelled)",
                      ],
         timeout=1500)
